@@ -83,6 +83,11 @@ def followStep (info : Nat → LNode) (num : Nat → Nat) (inLoop : List Nat)
 def loopFollowEndless (info : Nat → LNode) (num : Nat → Nat) (nodesInLoop : List Nat) : Option Nat :=
   (nodesInLoop.foldl (followStep info num nodesInLoop) (none, none)).1
 
+/-- the exits of a loop node as `loop_follow` sees them: the `true`/`false` successors of a conditional
+    node that lie outside the loop (used to state when `loop_follow` is order-free) -/
+def exitsOf (info : Nat → LNode) (inLoop : List Nat) (node : Nat) : List Nat :=
+  if (info node).isCond then [(info node).tru, (info node).fls].filter (fun e => !inLoop.contains e) else []
+
 /-! ## A3  `BasicBlock.var_to_declare` printed by `Writer.visit_node` -/
 
 /-- legacy: one declaration line per variable, in set order -/
@@ -161,6 +166,37 @@ def commonDom (idom : Nat → Nat) : Nat → Nat → Nat → Nat
     else if cur < pred then commonDom idom fuel cur (idom pred)
     else commonDom idom fuel (idom cur) pred
 
+/-- `util.common_dom(idom, cur, pred)` for two nodes (not `None`), line by line, with node identity
+    (`cur is not pred`) separate from the RPO number `node.num`:
+
+        while cur is not pred:
+            while cur.num < pred.num: pred = idom[pred]
+            while cur.num > pred.num: cur = idom[cur]
+        return cur
+
+    `idom v = none` stands for both `idom[entry] = None` (then `None.num` raises) and a missing key
+    (`KeyError`); two different nodes with the same number make the Python loop spin forever.  All
+    three, and running out of fuel, are the explicit result `none`. -/
+def commonDomG (idom : Nat → Option Nat) (num : Nat → Nat) : Nat → Nat → Nat → Option Nat
+  | 0, _, _ => none
+  | fuel + 1, cur, pred =>
+    if cur = pred then some cur
+    else if num cur < num pred then
+      match idom pred with
+      | some p => commonDomG idom num fuel cur p
+      | none => none
+    else if num pred < num cur then
+      match idom cur with
+      | some c => commonDomG idom num fuel c pred
+      | none => none
+    else none
+
+/-- B2 with a partial operation: `c = def_nodes.pop(); for d in def_nodes: c = common_dom(idom, c, d)`;
+    `none` for the empty set (the code skips it) and when a `common_dom` call fails -/
+def popFoldM {α} (op : α → α → Option α) : List α → Option α
+  | [] => none
+  | a :: rest => rest.foldlM op a
+
 /-- B3 step 2 of `dom_lt`: `for v in pred[w]: semi[w] = min(semi[w], semi[eval(v)])` -/
 def semiMin {α} (ev : α → Nat) (s0 : Nat) (σ : List α) : Nat :=
   σ.foldl (fun s v => min s (ev v)) s0
@@ -180,7 +216,9 @@ open AgVerif.Gen.OrderSites in
     independent of the enumeration order (theorem names refer to Props/C22.lean):
 
     independent   `independent_updates_order_irrelevant`  (B1)
-    lca           `place_declarations_order_irrelevant`   (B2)
+    lca           `place_declarations_order_irrelevant_domtree` / `…_real` (B2; abstract form
+                  `place_declarations_order_irrelevant`)
+    min           `dom_lt_order_irrelevant` (B3; the fold alone: `semi_min_order_irrelevant`)
     int           elements are `int` locations: CPython hashes an int to its value, so the order is a
                   function of the insertion history and not of the seed or the memory layout
                   (assumption); the two folds among them are also proved order-free
